@@ -265,6 +265,13 @@ def observe_expo(mod, expo_names, k=0):
     return np.array([[S[k, i, j] for j in idx] for i in idx], complex).reshape(len(idx), len(idx))
 
 
+def observe_s2pd(mod, expo_names):
+    """the same matrix read through the library's own named view: S2PD() is labelled with the printable pin names"""
+    tab = mod.S2PD()
+    return np.array([[complex(tab.loc[a, b]) for b in expo_names] for a in expo_names], complex).reshape(
+        len(expo_names), len(expo_names))
+
+
 # ---------------------------------------------------------------------------------------------
 # Coq literals
 
